@@ -301,6 +301,7 @@ class Lowering:
         self.stubs = set()           # flat names the caller wants as prototype only
         self.cur_fn = None
         self.fdiv_macro = False
+        self.fp_uf = False
 
     def fork(self):
         """a lowering with fresh request state that shares this one's (read-only) index"""
@@ -354,6 +355,11 @@ class Lowering:
         elif k in ('FunctionDecl', 'CXXMethodDecl', 'CXXConstructorDecl', 'CXXDestructorDecl',
                    'CXXConversionDecl'):
             n['_scope'] = scope
+            pid = n.get('parentDeclContextId')
+            if pid and pid in self.by_id and '_qname' in self.by_id[pid]:
+                # out-of-line member definition: the semantic parent is the class
+                rec = self.by_id[pid]
+                n['_scope'] = rec.get('_scope', ()) + (rec['_qname'],)
             m = n.get('mangledName')
             if m:
                 self.funcs_by_mangled.setdefault(m, []).append(n)
@@ -556,6 +562,78 @@ class Lowering:
                     if any(c.get('kind') == 'EnumConstantDecl' for c in n.get('inner', [])):
                         self._enum_index.setdefault(n['name'], n)
         return self._rec_index.get(flat)
+
+    def flat_union(self, rec):
+        """A record whose only data member is an anonymous union of layout-identical views of the
+        same N scalars (anonymous structs of N fields of type T and/or an array T[N]) -- gdstk's Vec2
+        and IntVec2 -- is lowered to a plain struct of N fields named after the first view; every
+        other view is an alias that is rewritten to it (u,v / re,im / e[0],e[1] -> x,y).  Returns
+        (type, [canonical names], {field id: position or 'array'}) or None."""
+        key = rec['id']
+        if not hasattr(self, '_flat_cache'):
+            self._flat_cache = {}
+        if key in self._flat_cache:
+            return self._flat_cache[key]
+        res = None
+        fields = [f for f in rec.get('inner', []) if f.get('kind') == 'FieldDecl']
+        anons = [f for f in rec.get('inner', []) if f.get('kind') in ('CXXRecordDecl', 'RecordDecl') and not f.get('name') and f.get('completeDefinition')]
+        if len(fields) == 1 and not fields[0].get('name') and len(anons) == 1 and anons[0].get('tagUsed') == 'union':
+            u = anons[0]
+            views = []
+            ok = True
+            pend = None
+            for f in u.get('inner', []):
+                k = f.get('kind')
+                if k in ('CXXRecordDecl', 'RecordDecl') and not f.get('name') and f.get('completeDefinition'):
+                    if f.get('tagUsed') != 'struct':
+                        ok = False
+                    pend = f
+                elif k == 'FieldDecl':
+                    if not f.get('name'):
+                        if pend is None:
+                            ok = False
+                            continue
+                        fl = [x for x in pend.get('inner', []) if x.get('kind') == 'FieldDecl']
+                        if any(not x.get('name') for x in fl) or any(x.get('kind') in ('CXXRecordDecl', 'RecordDecl') and not x.get('isImplicit') for x in pend.get('inner', [])):
+                            ok = False
+                        views.append(('struct', fl))
+                        pend = None
+                    else:
+                        views.append(('array', f))
+            if ok and views and views[0][0] == 'struct':
+                names = [x['name'] for x in views[0][1]]
+                ty = views[0][1][0]['type']['qualType']
+                n = len(names)
+                fmap = {}
+                for kind, v in views:
+                    if kind == 'struct':
+                        if len(v) != n or any(x['type']['qualType'] != ty for x in v):
+                            ok = False
+                            break
+                        for i, x in enumerate(v):
+                            fmap[x['id']] = i
+                    else:
+                        m = re.match(r'^(.*)\[(\d+)\]$', v['type']['qualType'])
+                        if not m or m.group(1).strip() != ty or int(m.group(2)) != n:
+                            ok = False
+                            break
+                        fmap[v['id']] = 'array'
+                if ok:
+                    res = (ty, names, fmap)
+        self._flat_cache[key] = res
+        return res
+
+    def flat_field(self, fid):
+        """(canonical names, position|'array') if field id belongs to a flattened union record"""
+        if not hasattr(self, '_flat_fields'):
+            self._flat_fields = {}
+            for n in self.by_id.values():
+                if n.get('kind') in ('CXXRecordDecl', 'RecordDecl') and n.get('name') and n.get('completeDefinition') and '_qname' in n:
+                    fu = self.flat_union(n)
+                    if fu:
+                        for k, v in fu[2].items():
+                            self._flat_fields[k] = (fu[1], v)
+        return self._flat_fields.get(fid)
 
     def _find_enum(self, flat):
         self._find_record('')
@@ -1006,6 +1084,26 @@ class Lowering:
         return False
 
     def initlist(self, n):
+        q = n.get('type', {}).get('qualType', '')
+        if '(anonymous' not in q and '(unnamed' not in q:
+            try:
+                t0 = self.parse_type(n['type'])
+                rec = self._find_record(t0.name) if t0.kind == 'base' else None
+            except LoweringError:
+                rec = None
+            if rec is not None and self.flat_union(rec):
+                # descend through the union / struct levels to the scalar initialisers
+                cur = n
+                while True:
+                    inner = [c for c in cur.get('inner', [])]
+                    if len(inner) == 1 and inner[0].get('kind') == 'InitListExpr':
+                        cur = inner[0]
+                        continue
+                    break
+                items = [self.init_item(c) for c in cur.get('inner', [])]
+                if not items:
+                    return '{0}'
+                return '{' + ', '.join(items) + '}'
         items = []
         inner = n.get('inner', [])
         if 'array_filler' in n:
@@ -1239,6 +1337,18 @@ class Lowering:
                 return '(%s, %s)' % (self.expr(a), self.expr(b))
             if op in ('.*', '->*'):
                 raise LoweringError('pointer to member')
+            if self.fp_uf and op in ('+', '-', '*', '/', '+=', '-=', '*=', '/='):
+                t = self.parse_type(n['type'])
+                if t.kind == 'base' and t.name == 'double':
+                    # optional sound abstraction (group option uf_fp): double arithmetic through macros
+                    # that the proof defines as uninterpreted functions (include/vf.h)
+                    mac = {'+': 'VF_FADD', '-': 'VF_FSUB', '*': 'VF_FMUL', '/': 'VF_FDIV'}[op[0]]
+                    if k == 'BinaryOperator':
+                        return '%s(%s, %s)' % (mac, self.expr(a), self.expr(b))
+                    lhs = self.expr(a)
+                    if '++' in lhs or '--' in lhs or re.search(r'[A-Za-z_][A-Za-z0-9_]*\(', lhs):
+                        raise LoweringError('compound assignment with side effects under uf_fp')
+                    return '(%s = %s(%s, %s))' % (lhs, mac, lhs, self.expr(b))
             if op == '/' and self.fdiv_macro and k == 'BinaryOperator':
                 t = self.parse_type(n['type'])
                 if t.kind == 'base' and t.name == 'double':
@@ -1253,6 +1363,20 @@ class Lowering:
             return '(%s ? %s : %s)' % (self.expr(c), self.expr(a), self.expr(b))
         if k == 'ArraySubscriptExpr':
             a, b = n['inner']
+            am = self.strip_casts(a)
+            if am.get('kind') == 'MemberExpr':
+                ff = self.flat_field(am.get('referencedMemberDecl'))
+                if ff is not None and ff[1] == 'array':
+                    try:
+                        idx = self._const_int(b)
+                    except (LoweringError, KeyError):
+                        raise LoweringError('array view of a flattened union indexed by a non-constant')
+                    if not (0 <= idx < len(ff[0])):
+                        raise LoweringError('array view index out of range')
+                    fake = dict(am)
+                    fake['name'] = ff[0][idx]
+                    fake['referencedMemberDecl'] = None
+                    return self.member(fake)
             return '%s[%s]' % (self.expr(a), self.expr(b))
         if k == 'MemberExpr':
             return self.member(n)
@@ -1334,6 +1458,11 @@ class Lowering:
         name = n.get('name')
         if fld is not None and fld.get('kind') in ('CXXMethodDecl',):
             raise LoweringError('bound member function outside a call')
+        ff = self.flat_field(n.get('referencedMemberDecl'))
+        if ff is not None:
+            if ff[1] == 'array':
+                raise LoweringError('array view of a flattened union used without a constant index')
+            name = ff[0][ff[1]]
         if not name:
             # anonymous member access: transparent in C11
             if arrow:
@@ -1534,6 +1663,10 @@ class Lowering:
     def _fields(self, r, lvl):
         out = []
         I = self.ind(lvl)
+        fu = self.flat_union(r) if r.get('name') else None
+        if fu:
+            t = self.parse_type(fu[0])
+            return [I + self.decl(t, nm) + ';' for nm in fu[1]] + [I + '/* flattened union of alias views */']
         inner = r.get('inner', [])
         i = 0
         pending_anon = None
@@ -1702,7 +1835,8 @@ class Lowering:
 
 
 def dump_ast(src, out_json, extra_flags=()):
-    cmd = ['clang++', '-std=c++17', '-DNDEBUG', '-I/repo/include', '-I/repo/external', '-fsyntax-only',
+    repo = os.environ.get('VF_REPO', '/repo')
+    cmd = ['clang++', '-std=c++17', '-DNDEBUG', '-I%s/include' % repo, '-I%s/external' % repo, '-fsyntax-only',
            '-Xclang', '-ast-dump=json'] + list(extra_flags) + [src]
     with open(out_json, 'w') as f:
         r = subprocess.run(cmd, stdout=f, stderr=subprocess.PIPE, text=True)
